@@ -70,6 +70,19 @@ theorem pick_returns_only_ready_subconn (ops : List Op) (hok : RunOk {} ops) (hn
   have hr := reg_ready _ (reg_run {} ops good_init reg_init hok) hns
   exact ⟨fun X hX => hr.1 X (pick_sc _ X hX), hr.2⟩
 
+/-- A happy-eyeballs timer that was cancelled (a SubConn became READY / failed, a resolver update, Close)
+    may already have fired: its callback is then waiting for b.mu and Stop() cannot stop it.  When it
+    finally runs it does nothing — no SubConn is created or connected, nothing is reported, and the
+    balancer's map, state, picker, address index and armed timer are what they were (the `cancelled`
+    flag set under the mutex; a check of "is the address still current" would not do: READY re-seeks
+    the index to the very address the timer was armed for). -/
+theorem stale_timer_callback_is_inert (s : St) :
+    (step s .late).2.evs = [] ∧ (step s .late).1.subConns = s.subConns ∧ (step s .late).1.state = s.state ∧
+    (step s .late).1.picker = s.picker ∧ (step s .late).1.idx = s.idx ∧ (step s .late).1.addrs = s.addrs ∧
+    (step s .late).1.timer = s.timer ∧ (step s .late).1.firstPass = s.firstPass := by
+  simp only [step, lateFire_eq]
+  split <;> simp
+
 /-- Once one SubConn becomes READY all other SubConns are shut down: afterwards the map holds that
     SubConn only, and Shutdown() was called on every other SubConn of the map. -/
 theorem others_shut_down_on_ready (ops : List Op) (hok : RunOk {} ops) (id err : Nat) (sd : SC)
